@@ -231,6 +231,21 @@ func Corpus() []CorpusScenario {
 				{{Op: pipeline.Update, Obj: churnEndpoints("ns1", "svc1", []int{3, 2, 0, 1}, 0, true)}},
 			},
 		},
+		{
+			// DNS resolvers (resolvers section + server-template ... resolvers <name>), prometheus
+			// frontend; then the resolver declaration goes away
+			Name: "14-dns-resolver-prometheus",
+			Opt:  Opt{},
+			H: [][]pipeline.Change{
+				creates(pglobal(map[string]string{"dns-resolvers": "kube=10.96.0.10:53", "prometheus-port": "9101"}),
+					svc("ns1", "svc1"), EndpointsRef("ns1", "svc1", "http", 8080, []string{"10.1.0.1", "10.1.0.2"}, nil, 0),
+					svc("ns1", "svc2"), EndpointsRef("ns1", "svc2", "http", 8080, []string{"10.1.1.1"}, nil, 0),
+					ing("ns1", "ing1", map[string]string{"use-resolver": "kube"}, rule("a.example", pth("/", "svc1"))),
+					ing("ns1", "ing2", map[string]string{"use-resolver": "nosuch"}, rule("b.example", pth("/", "svc2")))),
+				{{Op: pipeline.Update, Obj: EndpointsRef("ns1", "svc1", "http", 8080, []string{"10.1.0.1"}, nil, 0)}},
+				{{Op: pipeline.Update, Obj: pglobal(map[string]string{"prometheus-port": "9101"})}},
+			},
+		},
 	}
 }
 
